@@ -167,3 +167,24 @@ Proof.
   symmetry. exact E.
 Qed.
 Print Assumptions C01_compiled_tape_computes_the_expression.
+
+(* ... and the hypothesis [arena_ok] is met by every context a program can build: starting
+   from the empty context, any sequence of successful public builder calls (constant, var,
+   unary, every binary builder with its rewrites, import of a tree) yields an arena whose
+   every choice of in-range roots compiles and evaluates as above. *)
+From FV Require Import Ctx CtxProof.
+Theorem C01_every_built_context_compiles_correctly :
+  forall (o : oracle) (c : ctx) (roots : list nat) (n : nat),
+    built_ctx o c -> (forall r, In r roots -> r < length c) -> 3 <= n -> n <= 255 ->
+    exists (t : ssa_tape f32) (vars : varmap) (rt : list (op f32)) (slots : nat),
+      flatten c roots = Ok (t, vars) /\
+      reg_tape_new n (t_ops t) = Ok (rt, slots) /\
+      forall (env : nat -> f32) (stale : Tape.env),
+        m_out (eval_tape (f32_sem o) rt (map env vars) stale (fresh_out (f32_sem o) (length roots)))
+        = map (ctx_eval (f32_sem o) c env) roots.
+Proof.
+  intros o c roots n B Hr H3 H255.
+  apply C01_compiled_tape_computes_the_expression; try assumption.
+  eapply ctx_arena_ok; eassumption.
+Qed.
+Print Assumptions C01_every_built_context_compiles_correctly.
